@@ -8,6 +8,7 @@
 //!   tag 5 (Type, &[u8]) [type index][len x3]      tag 6 byte slice [len x3]
 //!   tag 7 TypeLengthValues section [raw bytes]    tag 8 Type [type index]
 //!   tag 9 &TypeLengthValue [kind][len x3]
+//!   tag 12 TypeLengthValues section of a given length [len x3] (zeros with a few TLV heads)
 //!   tag 11 two TLVs written one after the other into the same writer [k1][l1][v1..][k2][l2][v2..]
 //!   tag 10 TLV with an explicit value [kind][value bytes]: written as TypeLengthValue, (u8,&[u8]) and &TypeLengthValue
 
@@ -184,6 +185,12 @@ fn check(case: &[u8], acc: &mut Acc) {
             let s = TypeLengthValues::from(p);
             run_one(acc, "TypeLengthValues::write_to", pc, Some(p.to_vec()), &|w| s.write_to(w), &|| s.to_bytes());
         }
+        12 if p.len() >= 3 => {
+            let len = len3(&p[0..3]).min(200_000);
+            let bytes: Vec<u8> = (0..len).map(|i| if i % 1000 == 0 { 4 } else { 0 }).collect();
+            let s = TypeLengthValues::from(&bytes[..]);
+            run_one(acc, "TypeLengthValues::write_to (large section)", pc, Some(bytes.clone()), &|w| s.write_to(w), &|| s.to_bytes());
+        }
         11 if p.len() >= 2 => {
             let (k1, l1) = (p[0], p[1] as usize);
             if p.len() < 2 + l1 + 2 {
@@ -258,6 +265,12 @@ pub fn cases(thorough: bool) -> Vec<Vec<u8>> {
                 let ll = l3(l);
                 out.push(case(pc, 5, &[t, ll[0], ll[1], ll[2]]));
             }
+        }
+    }
+    // large TLV sections given as raw slices (their len() accessor is a u16)
+    for l in [255usize, 256, 65534, 65535, 65536, 65537, 70000, 131072] {
+        for pc in [0u8, 1, 5] {
+            out.push(case(pc, 12, &l3(l)));
         }
     }
     // three type bytes and slices at a range of lengths
